@@ -10,6 +10,7 @@ from __future__ import annotations
 import itertools
 from functools import partial
 from io import BytesIO
+from numbers import Integral
 from typing import TYPE_CHECKING, Any, Callable, Dict, List, Optional, Tuple, Union
 
 import numpy as np
@@ -152,8 +153,8 @@ def _make_empty_cog(
     )
     _compression = enumarg(COMPRESSION, compression.upper())
 
-    if isinstance(blocksize, int):
-        blocksize = [blocksize]
+    if isinstance(blocksize, Integral):  # int, numpy integers
+        blocksize = [int(blocksize)]
 
     ax, yaxis = yaxis_from_shape(shape, gbox)
     im_shape = shape_(shape[yaxis : yaxis + 2])
